@@ -445,3 +445,31 @@ Definition u_convert (a : sx) : sx :=
                        | Some su, Some v => of_gdict (dconv (img_sub_score su) v) | _, _ => bad_input end
   | _ => bad_input
   end.
+
+(* ------------------------------------------------------------------ C03 / C04 *)
+From VL Require Import Model.STV.
+
+Definition of_okey (k : option C) : sx := match k with Some c => of_pos c | None => L [] end.
+Definition of_stop (s : option stop) : sx :=
+  match s with
+  | None => A 0
+  | Some S_nie => A E_NIE | Some S_vse => A E_VSE | Some S_runtime => A 16 | Some S_fuel => A E_FUEL
+  end.
+
+(* args: ((quota|()) accept_equal mandatory step) votes n prev caps *)
+Definition u_stv (a : sx) : sx :=
+  match a with
+  | L [L [qs; ae; ma; A st]; v; A n; p; c] =>
+      let quota := match qs with
+                   | L [] => Some None
+                   | L [q] => match as_quota q with Some q => Some (Some (quota_fn q)) | None => None end
+                   | _ => None end in
+      match quota, as_bool ae, as_bool ma, as_rprofile v, as_dict as_pos as_Z p, as_dict as_pos as_Z c with
+      | Some quota, Some ae, Some ma, Some votes, Some prev, Some caps =>
+          let t := stv (Build_cfg quota ae ma st) votes n prev caps in
+          ok (L [L (map (fun ce => L [of_dict of_okey of_Q (fst ce); of_dict of_pos A (snd ce)]) (t_counts t));
+                 of_dict of_pos A (t_seats t); of_stop (t_stop t)])
+      | _, _, _, _, _, _ => bad_input
+      end
+  | _ => bad_input
+  end.
